@@ -8,6 +8,7 @@ use vstd::std_specs::ops::*;
 use vstd::std_specs::cmp::*;
 use vstd::std_specs::iter::*;
 use core::cmp::Ordering;
+use core::ops;
 verus! {
 """
 FILE_FOOTER = """
@@ -96,6 +97,14 @@ def apply_extra(rw, src, lo, hi, cfg, skip):
             rw.replace(k, k + len(pt), rep, rule)
 
 
+def rules_recv(recv, f):
+    # inside a `mut self` function the receiver was renamed (R4-mut-self)
+    import re as _re
+    if f.opts.get("_self_renamed"):
+        return _re.sub(r"\bself\b", "self_", recv)
+    return recv
+
+
 def apply_body_rules(rw, src, f, body_open, body_close, loops, cfg):
     toks = src.toks
     for pat, rep, rule in f.opts.get("subst", []):
@@ -105,6 +114,36 @@ def apply_body_rules(rw, src, f, body_open, body_close, loops, cfg):
             raise Undecided(f"anchor lost: rewrite pattern {pat!r} not found in {f.key}")
         for k in hits:
             rw.replace(k, k + len(pt), rep, rule)
+    # R12: `for x in &mut E {`  ->  `for x in E.iter_mut() {`   (IntoIterator for &mut Vec<T> is iter_mut())
+    for lp in loops:
+        if lp["kind"] == "for" and toks[lp["in"] + 1].text == "&" and toks[lp["in"] + 2].text == "mut":
+            rw.replace(lp["in"] + 1, lp["in"] + 3, "", "R12-for-mut-ref")
+            rw.insert_after(lp["body_open"] - 1, ".iter_mut()", "R12-for-mut-ref")
+    # R11: `for v in E.iter_mut().take(M)..` -> hoist `let mut vx_im = E.iter_mut();` and state the trusted
+    # axiom that the elements a Take adapter never yields keep their values
+    for n, lp in enumerate(loops, 1):
+        if lp["kind"] != "for":
+            continue
+        k = lp["in"] + 1
+        bo = lp["body_open"]
+        hit = None
+        while k < bo - 6:
+            if toks[k].text in ("(", "["):
+                k = src.pairs[k] + 1
+                continue
+            if [t.text for t in toks[k:k + 6]] == [".", "iter_mut", "(", ")", ".", "take"]:
+                hit = k
+                break
+            k += 1
+        if hit is None:
+            continue
+        tk_open = hit + 6
+        tk_close = src.pairs[tk_open]
+        m_txt = src.text[toks[tk_open + 1].start:toks[tk_close - 1].end]
+        first = lp["kw"] - 2 if lp["label"] else lp["kw"]
+        recv = src.text[toks[lp["in"] + 1].start:toks[hit - 1].end]
+        rw.replace(lp["in"] + 1, hit + 4, f"vx_im{n}", "R11-iter-mut-take", swallow=True)
+        rw.insert(first, f"let mut vx_im{n} = {{RECV{n}}}.iter_mut();\n        proof {{ axiom_iter_mut_unvisited(IteratorSpec::remaining(&vx_im{n}), ({m_txt}) as int); }}\n        ".replace(f"{{RECV{n}}}", rules_recv(recv, f)), "R11-iter-mut-take")
     # R5-enumerate: `for (i, pat) in E.enumerate()[.skip(k)] { body }`
     #   ->  `let mut i: usize = k; for pat in E[.skip(k)] { body; i += 1; }`
     for lp in loops:
